@@ -212,7 +212,7 @@ def verdict(ctx, level, coverage, assumptions, extra_violations=()):
     for f in known:
         if f["id"] in hits:
             print("KNOWN-FINDING: property=%s %s [%s; %d mismatching case(s) this run]" % (pid, f["what"], f["id"], len(hits[f["id"]])))
-    for i, m in enumerate(viol):
+    for i, m in enumerate(viol[:200]):
         p = os.path.join(outdir, "%d.json" % i)
         json.dump({"property": pid, "tier": ctx.tier, "seed": ctx.seed, "mismatch": m}, open(p, "w"), indent=1)
         if i < 25:
